@@ -2,6 +2,7 @@ import StoneVerif.Lemmas.FeCompileEq
 import StoneVerif.Lemmas.FeCompileClosed
 import StoneVerif.Lemmas.FeCompileFaithful
 import StoneVerif.Lemmas.FeCompileAcyclic
+import StoneVerif.Lemmas.FeCompileOrder
 /-!
 # C02 for the compile model: the Api is the image of the declarations
 
@@ -43,6 +44,18 @@ changes once set. (A struct or union MAY refer to itself through its members: no
 theorem api_acyclic (rx : String → Bool) (fs : List File) (api : Api) (h : compile rx fs = .ok api) :
     (∀ k, ¬ Path api.parentEdge k k) ∧ (∀ k, ¬ Path api.aliasEdge k k) :=
   L.compile_acyclic h
+
+/-- **Order independence of the image** (partial). Two accepted inputs that hold the same declarations in every
+namespace -- distributed over other files, files given in another order, declarations in another order
+(`SameDecls`) -- give every (namespace, name) the same data type (parent, members, catch-all) and the same alias.
+Missing for the full statement `compile fs' ≈ compile fs`: that acceptance itself does not depend on the arrangement
+(`compile fs = ok ↔ compile fs' = ok`, which needs the decidable `Legal` of compile_error_iff: not proved; the suites
+layout / faithful test it), routes and enumerated-subtype tables per key, and the listing orders (which DO follow the
+arrangement until `Api.normalize` sorts them: Props/C02.lean). -/
+theorem compile_order_independent_partial (rx : String → Bool) (fs fs' : List File) (api api' : Api)
+    (h : compile rx fs = .ok api) (h' : compile rx fs' = .ok api') (hs : SameDecls fs fs') (k : Key) :
+    api.type? k = api'.type? k ∧ api.alias? k = api'.alias? k :=
+  L.compile_order_independent h h' hs k
 
 /-- the built-in names the environment starts with are the classes of `IRGenerator.data_types` -/
 theorem builtin_names_table : Tables.feBuiltinTypes = FeParams.TyKind.all.map (·.pyName) := by decide
@@ -87,6 +100,12 @@ example : (compile (fun _ => true) sample).toOption.map (fun api =>
     ((api.type? ("na", "S")).bind (·.parent), (api.type? ("na", "U")).bind (·.parent),
      (api.alias? ("na", "B")).map (·.aliases))) =
     some (some ("nb", "T"), some ("na", "V"), some [("na", "A")]) := by decide +kernel
+
+/-- the files of the sample in reverse order are accepted too and give `na.S` the same image (an instance of
+`compile_order_independent_partial`; the populations happen in another order: `nb.T` first instead of on demand) -/
+example : ((compile (fun _ => true) sample.reverse).toOption.bind (·.type? ("na", "S"))).isSome = true ∧
+    (compile (fun _ => true) sample.reverse).toOption.bind (·.type? ("na", "S")) =
+      (compile (fun _ => true) sample).toOption.bind (·.type? ("na", "S")) := by decide +kernel
 
 def errOf {α} : Except Err α → Option Err
   | .error e => some e
